@@ -1,5 +1,6 @@
 SPECIFICATION Spec
 CONSTANTS
-  Scenarios = {}
-  DevSets = {}
+  ScSeq = {}
+  Listed = {}
+  Force = FALSE
 CHECK_DEADLOCK FALSE
